@@ -32,11 +32,23 @@ def atom_val(row, suffix):
 
 
 def start_atom(row):
-    """value of the `this is the starting node` atom (EQ:block == starting_block / node.block == starting_node.block)"""
-    for k, v in row.val.items():
-        if k.startswith('EQ:') and 'starting' in k:
+    """value of the `this is the starting node` atom: the equality atom of a traversal step (block == starting block)"""
+    eqs = [(k, v) for k, v in row.val.items() if k.startswith('EQ:')]
+    if len(eqs) == 1:
+        return eqs[0][1]
+    for k, v in eqs:
+        if '.block' in k or 'block' in row.src.get(k, ''):
             return v
     return None
+
+
+def popped_names(P, u, loop):
+    """names unpacked from the stack pop at the head of a traversal loop"""
+    for s in loop.body:
+        if isinstance(s, ast.Assign) and isinstance(s.value, ast.Call) and isinstance(s.value.func, ast.Attribute) and s.value.func.attr == 'pop':
+            from ..dataflow import names_in_target
+            return names_in_target(s.targets[0])
+    raise AnalysisError('traversal loop of %s does not start by popping its stack' % u.qual)
 
 
 # ------------------------------------------------------------------------------------------------ R-RELEVANCE
@@ -52,6 +64,10 @@ def relevance(ctx, rr):
         raise AnalysisError('R-RELEVANCE: webentity_dfs_iter no longer has one traversal loop')
     keep = lambda n, c: n in ('append', 'has_webentity', 'has_right', 'has_left', 'has_child', 'read')
     rows = tables(ctx, u, stmts=loops[0].body, iters=1, keep=keep)
+    pn = popped_names(P, u, loops[0])
+    if len(pn) != 3:
+        raise AnalysisError('R-RELEVANCE: webentity_dfs_iter stack entries are not (block, lru, level)')
+    LRUV, LVL = pn[1], pn[2]
     bad = []
     tab_dfs = set()
     for r in rows:
@@ -81,23 +97,23 @@ def relevance(ctx, rr):
         md_none = r.val.get('isnone:max_depth')
         deep = None
         for k, v in r.val.items():
-            if k.startswith('ORD:') and 'max_depth' in k and 'level' in k:
+            if k.startswith('ORD:') and 'max_depth' in k and LVL in k:
                 a, b = k[4:].split(' ? ')
-                lv, md = (a, b) if 'level' in a else (b, a)
+                lv, md = (a, b) if base(a) == LVL else (b, a)
                 deep = r.ord(lv, md) in ('EQ', 'GT')
-            if k.startswith('LIN:') and 'max_depth' in k and 'level' in k:
-                deep = None
         limited = (md_none is False) and bool(deep)
         want_child = relevant and bool(hc) and not limited
         if ('child' in dirs) != want_child:
             bad.append((r, None, 'child is %s (relevant=%s, has_child=%s, depth-limited=%s)' % ('descended' if 'child' in dirs else 'not descended', relevant, hc, limited)))
         if relevant and hc and md_none is None:
             bad.append((r, None, 'the depth limit is not consulted before descending'))
+        ylru = base(ys[0].args[1]) if ys and len(ys[0].args) > 1 else None
         for d, f, e in ps:
             if d == 'child':
-                ok = len(f) == 3 and f[1].replace(' ', '') in ('(lruAddnode.stem())', 'current_lru') and f[2].replace(' ', '') in ('(levelAdd1)',)
+                ok = len(f) == 3 and (ylru is None or f[1] == ylru) and f[1].startswith('(%s Add ' % LRUV) and f[1].endswith('.stem())') \
+                    and f[2] == '(%s Add 1)' % LVL
             else:
-                ok = len(f) == 3 and f[1] == 'lru' and f[2] == 'level'
+                ok = len(f) == 3 and f[1] == LRUV and f[2] == LVL
             if not ok:
                 bad.append((r, e, '%s push carries %s (child: extended LRU and level+1; sibling: same LRU and level)' % (d, f[1:])))
         tab_dfs.add((S, None if S else W, bool(ys), 'right' in dirs or 'left' in dirs or (not S and not (atom_val(r, '.has_right()') or atom_val(r, '.has_left()'))) and not S,
@@ -133,10 +149,11 @@ def relevance(ctx, rr):
         ys = [e for e in r.events if e.kind == 'yield']
         resume_skip = False
         if r.val.get('isnone:pagination_path') is False:
+            PL = resume_var(P)
             for k, v in r.val.items():
-                if k.startswith('ORD:') and 'pagination_lru' in k:
+                if k.startswith('ORD:') and PL in k:
                     a, b = k[4:].split(' ? ')
-                    cur, pl = (a, b) if 'pagination_lru' in b else (b, a)
+                    cur, pl = (a, b) if base(b) == PL else (b, a)
                     resume_skip = r.ord(cur, pl) != 'GT'
         if bool(ys) != (bool(relevant) and not resume_skip):
             bad.append((r, ys[0] if ys else None, 'node is %s (relevant=%s, resume filter skips=%s)' % ('yielded' if ys else 'skipped', relevant, resume_skip)))
@@ -151,6 +168,15 @@ def relevance(ctx, rr):
     rr.ob(ctx.where(io), 'in-order variant obeys the same relevance table (%d rows)' % len(rows), ok=not bad, rows=len(rows))
     for r, e, msg in bad:
         rr.fail(ctx.finding('R-RELEVANCE', io, e.node if e is not None else io.node, 'webentity_inorder_iter: ' + msg, detail={'row': r.show()[:500]}))
+
+
+def resume_var(P):
+    """name of the variable of webentity_inorder_iter that holds the LRU of the resume token (assigned from follow_path)"""
+    outer = P.method('LRUTrie', 'webentity_inorder_iter')
+    for a in P.own(outer, ast.Assign):
+        if isinstance(a.value, ast.Call) and isinstance(a.value.func, ast.Name) and a.value.func.id == 'follow_path' and isinstance(a.targets[0], ast.Name):
+            return a.targets[0].id
+    raise AnalysisError('webentity_inorder_iter no longer computes the resume LRU with follow_path')
 
 
 # ------------------------------------------------------------------------------------------------ R-ORDER
@@ -170,7 +196,7 @@ def order(ctx, rr):
                     if base(e.args[0]).endswith('.%s_node()' % side):
                         pos[side] = i
                         # the LRU handed down: siblings keep the parent LRU, the child gets the extended one
-                        if side == 'child' and 'stem()' not in e.args[1] and 'current_lru' not in e.args[1]:
+                        if side == 'child' and 'stem()' not in e.args[1]:
                             bad.append((r, e, 'child subtree is walked with the parent LRU instead of the extended one'))
                         if side != 'child' and ('stem()' in e.args[1]):
                             bad.append((r, e, '%s subtree is walked with the extended LRU instead of the parent one' % side))
@@ -184,10 +210,11 @@ def order(ctx, rr):
         # strict resume
         if r.val.get('isnone:pagination_path') is False and 'node' in pos:
             okk = False
+            PL = resume_var(P)
             for k, v in r.val.items():
-                if k.startswith('ORD:') and 'pagination_lru' in k:
+                if k.startswith('ORD:') and PL in k:
                     a, b = k[4:].split(' ? ')
-                    cur, pl = (a, b) if 'pagination_lru' in b else (b, a)
+                    cur, pl = (a, b) if base(b) == PL else (b, a)
                     okk = r.ord(cur, pl) == 'GT'
             if not okk:
                 bad.append((r, None, 'on resume a node is emitted although its LRU is not strictly greater than the LRU of the token'))
@@ -231,6 +258,10 @@ def propagate(ctx, rr):
     if len(loops) != 1:
         raise AnalysisError('R-PROPAGATE: dfs_with_webentity_iter no longer has one traversal loop')
     rows = tables(ctx, u, stmts=loops[0].body, iters=1, keep=lambda n, c: n in ('append', 'has_webentity', 'has_right', 'has_left', 'has_child', 'pop', 'read'))
+    pn = popped_names(P, u, loops[0])
+    if len(pn) != 2:
+        raise AnalysisError('R-PROPAGATE: stack entries of dfs_with_webentity_iter are not (block, webentity)')
+    INH = pn[1]
     bad = []
     for r in rows:
         W = atom_val(r, '.has_webentity()')
@@ -244,15 +275,15 @@ def propagate(ctx, rr):
         inherited = ya[1] if len(ya) == 2 else None
         if W and not own:
             bad.append((r, ys[0], 'a node that carries a webentity reports %s instead of its own' % ya[1:]))
-        if not W and own:
-            bad.append((r, ys[0], 'a node without webentity reports a webentity of its own'))
+        if not W and (own or ya[1] != INH):
+            bad.append((r, ys[0], 'a node without webentity reports %s instead of the inherited webentity' % ya[1]))
         for d, f, e in pushes(r):
             if len(f) != 2:
                 bad.append((r, e, 'unexpected stack entry %s' % f))
                 continue
             if d == 'child' and f[1] != ya[1]:
                 bad.append((r, e, 'the child inherits %s, not the webentity the node reports (%s)' % (f[1], ya[1])))
-            if d != 'child' and (f[1].endswith('.webentity()') or (W is False and f[1] != ya[1])):
+            if d != 'child' and f[1] != INH:
                 bad.append((r, e, 'the %s sibling inherits %s instead of the webentity inherited by the node' % (d, f[1])))
         dirs = [d for d, f, e in pushes(r)]
         for side in ('right', 'left', 'child'):
@@ -262,12 +293,6 @@ def propagate(ctx, rr):
     rr.ob(ctx.where(u, loops[0]), 'nearest-webentity propagation table (%d rows)' % len(rows), ok=not bad, rows=len(rows))
     for r, e, msg in bad:
         rr.fail(ctx.finding('R-PROPAGATE', u, e.node if e is not None else loops[0], 'dfs_with_webentity_iter: ' + msg, detail={'row': r.show()[:500]}))
-    # sibling pushes carry the *incoming* webentity also when the node has its own: check on the W=True rows explicitly
-    for r in rows:
-        if atom_val(r, '.has_webentity()'):
-            for d, f, e in pushes(r):
-                if d != 'child' and len(f) == 2 and not f[1].startswith('webentity'):
-                    rr.fail(ctx.finding('R-PROPAGATE', u, e.node, 'dfs_with_webentity_iter: siblings of a webentity node inherit %s' % f[1]))
 
 
 # ------------------------------------------------------------------------------------------------ R-SKIP-CHILDLESS
@@ -280,8 +305,12 @@ def skip_childless(ctx, rr):
         raise AnalysisError('R-SKIP-CHILDLESS: dfs_iter no longer has one traversal loop')
     rows = tables(ctx, u, stmts=loops[0].body, iters=1, keep=lambda n, c: n in ('append', 'can_have_child_webentities', 'has_right', 'has_left', 'has_child'))
     bad = []
+    roots = [a.targets[0].id for a in P.own(u, ast.Assign) if isinstance(a.value, ast.UnaryOp) and isinstance(a.value.op, ast.Not)
+             and isinstance(a.value.operand, ast.Name) and a.value.operand.id in u.params and isinstance(a.targets[0], ast.Name)]
+    if len(roots) != 1:
+        raise AnalysisError('R-SKIP-CHILDLESS: dfs_iter no longer derives a from-the-root flag from its starting node')
     for r in rows:
-        root = r.val.get('truthy:starting_from_root')
+        root = r.val.get('truthy:' + roots[0])
         S = start_atom(r)
         sib_ok = bool(root) or (S is False)
         skip = r.val.get('truthy:skip_childless_paths')
@@ -464,67 +493,81 @@ def _eq(row, a_sub, b_sub):
     return None
 
 
+def _assigned_from(P, scope_node, callee_names, owner_unit):
+    """names assigned (inside scope_node) from a call resolved to one of callee_names (or a dict .get)"""
+    out = []
+    for a in ast.walk(scope_node):
+        if isinstance(a, ast.Assign) and isinstance(a.targets[0], ast.Name) and isinstance(a.value, ast.Call):
+            tg = {t.name for t in P.targets(a.value)}
+            f = a.value.func
+            if tg & set(callee_names) or ('.get' in callee_names and isinstance(f, ast.Attribute) and f.attr == 'get' and not tg):
+                out.append(a.targets[0].id)
+    return out
+
+
+def _enclosing_for(P, u, node):
+    cur = P.parent.get(id(node))
+    while cur is not None and cur is not u.node:
+        if isinstance(cur, ast.For):
+            return cur
+        cur = P.parent.get(id(cur))
+    return None
+
+
+def _triple_appends(row):
+    return [e for e in row.calls('append') if e.args and len(split_tuple(e.args[0])) == 3]
+
+
 @rule('R-FILTER-AGREE')
 def filter_agree(ctx, rr):
     P = ctx.P
+    from ..dataflow import names_in_target
     keep = lambda n, c: n in ('append', 'windup_lru', 'windup_lru_for_webentity', 'read', 'get')
 
-    def table_of(u, loop, kind):
-        rows = tables(ctx, u, stmts=loop.body, iters=1, keep=keep)
-        tab = set()
-        detail = []
-        for r in rows:
-            ob = r.val.get('truthy:include_outbound')
-            it = r.val.get('truthy:include_internal')
-            apps = [e for e in r.calls('append') if e.var in ('pagelinks', 'newlinks')]
-            tab.add((ob, it, None, bool(apps)))
-            detail.append((r, apps))
-        return rows, detail
-
     # ---- per-webentity outbound/internal filter (two copies) and inbound filter
-    specs = []
     for qual in ('Traph.get_webentity_pagelinks_iter', 'Traph.paginate_webentity_pagelinks'):
         u = P.unit(qual)
+        WEID = u.call_params[0]
         loops = _link_loops(P, u)
         if not loops:
             raise AnalysisError('R-FILTER-AGREE: no link loop in %s' % qual)
         for lp in loops:
-            src = ast.unparse(lp.iter)
             rows = tables(ctx, u, stmts=lp.body, iters=1, keep=keep)
             inbound = _loop_direction(P, u, lp) == 'in'
+            owe = _assigned_from(P, lp, ['windup_lru_for_webentity'], u)
+            olru = _assigned_from(P, lp, ['windup_lru'], u)
+            outer = _enclosing_for(P, u, lp)
+            lt = names_in_target(lp.target)
+            ot = names_in_target(outer.target) if outer is not None else []
+            if len(owe) != 1 or len(olru) != 1 or len(lt) != 2 or len(ot) < 2:
+                raise AnalysisError('R-FILTER-AGREE: link loop of %s not recognised (other-end webentity %s, other-end lru %s)' % (qual, owe, olru))
+            OWE, OLRU, WEIGHT, PAGE_LRU = owe[0], olru[0], lt[1], ot[1]
+            shape = [OLRU, PAGE_LRU, WEIGHT] if inbound else [PAGE_LRU, OLRU, WEIGHT]
             bad = []
             for r in rows:
-                apps = [e for e in r.calls('append') if e.var in ('pagelinks', 'newlinks')]
+                apps = _triple_appends(r)
+                same = _eq(r, OWE, WEID)
+                ob = r.val.get('truthy:include_outbound')
+                it = r.val.get('truthy:include_internal')
                 if inbound:
-                    same = _eq(r, 'source_webentity', 'weid')
                     if same is None:
                         bad.append((r, None, 'inbound link is kept or dropped without comparing the source webentity with the queried one'))
                         continue
                     want = not same
-                    shape = ['source_lru', 'lru', 'weight']
                 else:
-                    same = _eq(r, 'target_webentity', 'weid')
-                    ob = r.val.get('truthy:include_outbound')
-                    it = r.val.get('truthy:include_internal')
                     if same is None:
-                        # both switches false on the consulted side can decide without the comparison
                         want = False
                         if apps:
                             bad.append((r, apps[0], 'link is kept without comparing the target webentity with the queried one'))
                             continue
                     else:
                         want = (bool(ob) and not same) or (bool(it) and same)
-                        if not same and ob is None or (same and it is None and not (ob and not same)):
-                            if apps:
-                                bad.append((r, apps[0], 'link is kept without consulting the matching include_* switch'))
-                                continue
-                    shape = ['lru', 'target_lru', 'weight']
                 if bool(apps) != bool(want):
                     bad.append((r, apps[0] if apps else None, 'link is %s although it should be %s (same webentity=%s, include_outbound=%s, include_internal=%s)' % (
-                        'kept' if apps else 'dropped', 'kept' if want else 'dropped', same, r.val.get('truthy:include_outbound'), r.val.get('truthy:include_internal'))))
+                        'kept' if apps else 'dropped', 'kept' if want else 'dropped', same, ob, it)))
                 for a in apps:
                     f = [x.split('#')[0] for x in split_tuple(a.args[0])]
-                    f = [x if not x.startswith('self.lru_trie.windup_lru(') else ('target_lru' if 'target' in x else 'source_lru') for x in f]
+                    f = [OLRU if 'windup_lru(' in x else x for x in f]
                     if f != shape:
                         bad.append((r, a, 'link is reported as %s instead of %s' % (f, shape)))
             rr.ob(ctx.where(u, lp), '%s filter of %s: keep iff %s (%d rows)' % ('inbound' if inbound else 'outbound/internal', qual,
@@ -533,50 +576,63 @@ def filter_agree(ctx, rr):
                 rr.fail(ctx.finding('R-FILTER-AGREE', u, e.node if e is not None else lp, '%s: %s' % (qual, msg), detail={'row': r.show()[:500]}))
     # ---- page level
     u = P.method('Traph', 'get_page_links')
+    LRU = u.call_params[0]
     for lp in _link_loops(P, u):
         rows = tables(ctx, u, stmts=lp.body, iters=1, keep=keep)
         inbound = _loop_direction(P, u, lp) == 'in'
+        olru = _assigned_from(P, lp, ['windup_lru'], u)
+        if len(olru) != 1:
+            raise AnalysisError('R-FILTER-AGREE: link loop of get_page_links not recognised')
         bad = []
         for r in rows:
-            apps = [e for e in r.calls('append') if e.var == 'pagelinks']
+            apps = _triple_appends(r)
+            same = _eq(r, olru[0], LRU)
             if inbound:
-                same = _eq(r, 'source_lru', 'lru')
                 if same is None:
                     bad.append((r, None, 'inbound page link handled without comparing source and page'))
                     continue
                 want = not same
             else:
-                same = _eq(r, 'target_lru', 'lru')
                 ob, it = r.val.get('truthy:include_outbound'), r.val.get('truthy:include_internal')
-                if same is None:
-                    want = False
-                else:
-                    want = (bool(ob) and not same) or (bool(it) and same)
+                want = False if same is None else ((bool(ob) and not same) or (bool(it) and same))
             if bool(apps) != bool(want):
                 bad.append((r, apps[0] if apps else None, 'page link is %s (self link=%s)' % ('kept' if apps else 'dropped', same)))
         rr.ob(ctx.where(u, lp), 'get_page_links %s filter: a self-link is reported once, as internal (%d rows)' % ('inbound' if inbound else 'outbound', len(rows)), ok=not bad)
         for r, e, msg in bad:
             rr.fail(ctx.finding('R-FILTER-AGREE', u, e.node if e is not None else lp, 'get_page_links: ' + msg, detail={'row': r.show()[:500]}))
     # ---- network: fast (pass 2) and slow variants
-    tabs = {}
     for qual in ('Traph.get_webentities_links_iter', 'Traph.get_webentities_links_slow_iter'):
         u = P.unit(qual)
         loops = _link_loops(P, u)
         if len(loops) != 1:
             raise AnalysisError('R-FILTER-AGREE: expected one link loop in %s' % qual)
         lp = loops[0]
+        outer = _enclosing_for(P, u, lp)
+        if outer is None:
+            raise AnalysisError('R-FILTER-AGREE: link loop of %s is not inside a page loop' % qual)
+        ot = names_in_target(outer.target)
+        it_call = outer.iter
+        # the source webentity is what the page loop binds next to the node (dfs) or first in the saved pointers
+        if isinstance(it_call, ast.Call) and any(t.name == 'dfs_with_webentity_iter' for t in P.targets(it_call)):
+            SRC = ot[1]
+        else:
+            SRC = ot[0]
+        lt = names_in_target(lp.target)
+        tw = set(_assigned_from(P, lp, ['windup_lru_for_webentity', '.get'], u))
+        if len(tw) != 1 or len(lt) != 2:
+            raise AnalysisError('R-FILTER-AGREE: target webentity of %s not recognised (%s)' % (qual, tw))
+        TGT, WEIGHT = list(tw)[0], lt[1]
         rows = tables(ctx, u, stmts=lp.body, iters=1, keep=keep)
         bad = []
-        tab = set()
         for r in rows:
-            adds = [e for e in r.events if e.kind == 'store' and (e.name or '').startswith('graph[')]
-            tw_none = [v for k, v in r.val.items() if 'target_webentity' in k and (k.startswith('truthy:') or k.startswith('isnone:') or k.startswith('truthy'))]
+            adds = [e for e in r.events if e.kind == 'store' and isinstance(e.node, ast.AugAssign)]
             auto = r.val.get('truthy:include_auto')
-            same = _eq(r, 'source_webentity', 'target_webentity')
-            # a target without webentity is dropped
-            no_target = any((k.startswith('truthy:') and 'target_webentity' in k and v is False) or
-                            (k.startswith('truthy:') and 'windup_lru_for_webentity' in k and v is False) or
-                            (k.startswith('truthy:') and '.get(' in k and v is False) for k, v in r.val.items())
+            same = _eq(r, SRC, TGT)
+            no_target = any(v is False for k, v in r.by_src(TGT, kinds=('truthy:',))) or \
+                any(v is True for k, v in r.by_src(TGT, kinds=('isnone:',)) if not any(v2 is True for k2, v2 in r.by_src(TGT, kinds=('truthy:',))))
+            # slow variant: `is None` only triggers the windup; absence is the falsy result of the windup
+            if any(v is True for k, v in r.by_src(TGT, kinds=('isnone:',))):
+                no_target = any(v is False for k, v in r.by_src(TGT, kinds=('truthy:',)))
             if no_target:
                 want = False
             elif same is None and auto is None:
@@ -591,28 +647,29 @@ def filter_agree(ctx, rr):
                     'added' if adds else 'dropped', not no_target, same, auto)))
             for a in adds:
                 nd = a.node
-                okk = isinstance(nd, ast.AugAssign) and isinstance(nd.op, ast.Add) and ast.unparse(nd.target) == 'graph[source_webentity][target_webentity]' \
-                    and ast.unparse(nd.value) == 'weight'
+                tgt = nd.target
+                okk = isinstance(nd.op, ast.Add) and isinstance(tgt, ast.Subscript) and isinstance(tgt.value, ast.Subscript) \
+                    and ast.unparse(tgt.value.slice) == SRC and ast.unparse(tgt.slice) == TGT and ast.unparse(nd.value) == WEIGHT
                 if not okk:
-                    bad.append((r, a, 'the weight is accumulated as `%s` instead of graph[source_webentity][target_webentity] += weight' % ast.unparse(nd)))
-            tab.add((no_target, same, auto, bool(adds)))
+                    bad.append((r, a, 'the weight is accumulated as `%s` instead of graph[source][target] += weight' % ast.unparse(nd)))
         rr.ob(ctx.where(u, lp), 'network filter of %s: drop links to pages without webentity, drop same-webentity links unless include_auto, else add the weight (%d rows)'
               % (qual, len(rows)), ok=not bad, rows=len(rows))
         for r, e, msg in bad:
             rr.fail(ctx.finding('R-FILTER-AGREE', u, e.node if e is not None else lp, '%s: %s' % (qual, msg), detail={'row': r.show()[:500]}))
-        tabs[qual] = {(a, b, c, d) for a, b, c, d in tab}
     # pages are tallied and sources selected identically: is_page and a source webentity
     for qual in ('Traph.get_webentities_links_iter', 'Traph.get_webentities_links_slow_iter'):
         u = P.unit(qual)
         outer = [f for f in P.own(u, ast.For) if isinstance(f.iter, ast.Call) and any(t.name == 'dfs_with_webentity_iter' for t in P.targets(f.iter))]
         if len(outer) != 1:
             raise AnalysisError('R-FILTER-AGREE: page loop of %s not found' % qual)
+        SRC = names_in_target(outer[0].target)[1]
         rows = tables(ctx, u, stmts=outer[0].body, iters=1, keep=lambda n, c: n in ('is_page', 'has_links', 'links', 'append', 'weighted_link_nodes_iter', 'is_crawled'))
         bad = []
         for r in rows:
             isp = atom_val(r, '.is_page()')
-            sw = r.val.get('truthy:source_webentity')
-            used = [e for e in r.events if (e.kind == 'store' and ('page_to_webentity[' in (e.name or '') or 'graph[' in (e.name or '')))
+            sw = [v for k, v in r.by_src(SRC, kinds=('truthy:',)) if base(k) == 'truthy:' + SRC]
+            sw = sw[-1] if sw else None
+            used = [e for e in r.events if (e.kind == 'store' and isinstance(e.node, (ast.Assign, ast.AugAssign)) and '[' in (e.name or ''))
                     or (e.kind == 'call' and e.name in ('append', 'weighted_link_nodes_iter'))]
             if used and not (isp is True and sw is True):
                 bad.append((r, used[0], 'a node is counted / its links are used although it is not a page with a source webentity (is_page=%s, source webentity=%s)' % (isp, sw)))
@@ -644,10 +701,11 @@ def ladder_agree(ctx, rr):
         rows = tables(ctx, u, stmts=lp.body, iters=1, keep=lambda n, c: n in ('__apply_webentity_creation_rule',))
         K = None
         bad = []
-        for r in rows:
-            sets = [e for e in r.events if e.kind == 'set' and e.name != 'candidate_prefix' and 'apply_webentity_creation_rule' in e.args[0]]
-            for e in sets:
-                K = e.name
+        cands = [a.targets[0].id for a in ast.walk(lp) if isinstance(a, ast.Assign) and isinstance(a.targets[0], ast.Name) and isinstance(a.value, ast.Call)
+                 and any(t.name == '__apply_webentity_creation_rule' for t in P.targets(a.value))]
+        for a in ast.walk(lp):
+            if isinstance(a, ast.Assign) and isinstance(a.value, ast.Name) and a.value.id in cands and isinstance(a.targets[0], ast.Name):
+                K = a.targets[0].id
         for r in rows:
             sets = [e for e in r.events if e.kind == 'set' and e.name == K]
             tr = [v for k, v in r.val.items() if k.startswith('truthy:') and 'apply_webentity_creation_rule' in k]
@@ -704,10 +762,11 @@ def ladder_agree(ctx, rr):
             else:
                 ret = [e for e in r.events if e.kind == 'return']
                 t = base(ret[0].text) if ret else '?'
-                act = {K: 'K+expand', 'history.webentity_prefix': 'none', 'False': 'warn'}.get(t, 'D+expand' if 'default_creation_rule' in t else t)
+                act = {K: 'K+expand', 'False': 'warn'}.get(t, 'none' if t.endswith('.webentity_prefix') else ('D+expand' if 'default_creation_rule' in t else t))
                 if act == 'warn' and not r.calls('warn'):
                     act = 'silent-false'
-            tab[(le, kt if le is False else None, dt if (le is False and kt is False) else None)] = act
+            tab.setdefault((le, kt if le is False else None, dt if (le is False and kt is False) else None), set()).add(act)
+        tab = {k: '|'.join(sorted(v)) for k, v in tab.items()}
         ladders[role] = tab
         want = {(True, None, None): 'none', (False, True, None): 'K+expand', (False, False, True): 'D+expand', (False, False, False): 'warn'}
         ok = tab == want
@@ -762,11 +821,13 @@ def topk(ctx, rr):
     from ..guards import guard_facts
     gf = guard_facts(ctx, u)
     trim = [c for c in pops if P.stmt_of(c) is not None and isinstance(P.parent.get(id(P.stmt_of(c))), ast.If)]
+    heap = ast.unparse(push.args[0]) if push.args else '?'
     ok = False
     if trim:
         facts = gf.facts_at(trim[0]) or set()
-        ok = any(f[0] == 'T' and f[1].replace(' ', '') == 'len(pages)>pages_count' for f in facts) or \
-            any(f[0] == 'F' and f[1].replace(' ', '') == 'len(pages)<=pages_count' for f in facts)
+        ok = any(f[0] == 'T' and f[1].replace(' ', '') == 'len(%s)>pages_count' % heap for f in facts) or \
+            any(f[0] == 'F' and f[1].replace(' ', '') == 'len(%s)<=pages_count' % heap for f in facts)
+        ok = ok and ast.unparse(trim[0].args[0]) == heap
         st_push, st_trim = P.stmt_of(push), P.parent.get(id(P.stmt_of(trim[0])))
         body = getattr(P.parent.get(id(st_push)), 'body', [])
         ok = ok and st_push in body and st_trim in body and body.index(st_trim) == body.index(st_push) + 1
@@ -786,8 +847,14 @@ def topk(ctx, rr):
         rr.fail(ctx.finding('R-TOPK', u, push, 'non-page nodes can enter the most-linked heap'))
     # drain: filled from the back while popping the minimum -> non-increasing order
     wl = [w for w in P.own(u, ast.While)]
-    ok = len(wl) == 1 and any(isinstance(s, ast.AugAssign) and isinstance(s.op, ast.Sub) for s in wl[0].body) and \
-        any(isinstance(s, ast.Assign) and isinstance(s.targets[0], ast.Subscript) and 'page[0]' in ast.unparse(s.value) and "'indegree'" in ast.unparse(s.value) for s in wl[0].body)
+    ok = len(wl) == 1
+    if ok:
+        popv = [a.targets[0].id for a in wl[0].body if isinstance(a, ast.Assign) and isinstance(a.value, ast.Call) and ast.unparse(a.value.func) == 'heapq.heappop'
+                and isinstance(a.targets[0], ast.Name)]
+        ok = len(popv) == 1 and any(isinstance(s_, ast.AugAssign) and isinstance(s_.op, ast.Sub) for s_ in wl[0].body) and \
+            any(isinstance(s_, ast.Assign) and isinstance(s_.targets[0], ast.Subscript) and isinstance(s_.value, ast.Dict)
+                and {ast.unparse(k): ast.unparse(v) for k, v in zip(s_.value.keys, s_.value.values)} == {"'lru'": popv[0] + '[2]', "'indegree'": popv[0] + '[0]'}
+                for s_ in wl[0].body)
     rr.ob(ctx.where(u, wl[0] if wl else u.node), 'the heap is drained minimum-first into the result from the back (non-increasing indegree)', ok=ok)
     if not ok:
         rr.fail(ctx.finding('R-TOPK', u, wl[0] if wl else u.node, 'the result is no longer filled from the back while popping the minimum'))
